@@ -67,7 +67,10 @@ fn main() {
         Some("trace-gc") => {
             let inputs = cases::resolve_inputs(&get("inputs", "gen:100"), seed);
             let cfg = wv::run::Cfg::default();
-            let lines: Vec<_> = inputs.par_iter().map(|i| cases::gc_case(i, &cfg)).collect();
+            let mut lines: Vec<_> = inputs.par_iter().map(|i| cases::gc_case(i, &cfg)).collect();
+            // modules built / edited through the API
+            let built: u64 = get("built", "0").parse().unwrap();
+            lines.extend((0..built).into_par_iter().map(|k| cases::built_gc_case(seed, k)).collect::<Vec<_>>());
             cases::write_lines(&out, &lines);
             println!("cases {}", lines.len());
         }
